@@ -797,6 +797,27 @@ func runPkgCase(w *caseWriter, id string, d pkgDesc, st *pkgStats, extra func(w 
 			st.classes["parse"]++
 			continue
 		}
+		// the pre-dependencies the DOCUMENT states for this format (its override block's when that names any, the
+		// format's own block otherwise), read with a plain decoding; values that hold no variable reference only
+		if l, ok := plainList(d.YAML, format, "deb", "predepends"); ok {
+			info.Deb.Predepends = l
+		}
+		if l, ok := plainList(d.YAML, format, "ipk", "predepends"); ok {
+			info.IPK.Predepends = l
+		}
+		// the upgrade slots of apk and archlinux hold what the DOCUMENT names for them (plain decoding: the format's block in
+		// its override block, the top-level block otherwise) - a slot nobody names stays empty
+		for _, u := range []struct {
+			blk, key string
+			p        *string
+		}{{"apk", "preupgrade", &info.APK.Scripts.PreUpgrade}, {"apk", "postupgrade", &info.APK.Scripts.PostUpgrade},
+			{"archlinux", "preupgrade", &info.ArchLinux.Scripts.PreUpgrade}, {"archlinux", "postupgrade", &info.ArchLinux.Scripts.PostUpgrade}} {
+			if v, named, ok := plainScript(d.YAML, format, u.blk, u.key); ok && !strings.Contains(v, "$") {
+				if !named {
+					*u.p = ""
+				}
+			}
+		}
 		emitInfo(w, info)
 		// the version-related values as written in the document, before WithDefaults splits them
 		var rawCfg nfpm.Config
@@ -822,6 +843,25 @@ func runPkgCase(w *caseWriter, id string, d pkgDesc, st *pkgStats, extra func(w 
 			if ov := docCfg.Overrides[format]; ov != nil && len(ov.Contents) > 0 {
 				contents = ov.Contents
 			}
+		}
+		// a mode in a document is the integer YAML says it is (0644, 0o644 and 420 are one number): taken from a plain
+		// decoding of the document, not from the configuration type's own decoder
+		if pm := plainModes(d.YAML, format); len(pm) == len(contents) {
+			cp := make(files.Contents, len(contents))
+			for i, e := range contents {
+				cp[i] = e
+				if pm[i] != nil && e != nil {
+					c2 := *e
+					fi := files.ContentFileInfo{}
+					if e.FileInfo != nil {
+						fi = *e.FileInfo
+					}
+					fi.Mode = os.FileMode(*pm[i])
+					c2.FileInfo = &fi
+					cp[i] = &c2
+				}
+			}
+			contents = cp
 		}
 		if format == "deb" && info.Changelog != "" {
 			contents = append(append(files.Contents{}, contents...), &files.Content{
@@ -1079,3 +1119,108 @@ func cmdPkg(prop, tier string, seed int64, out, statsOut, replay string) {
 }
 
 var _ = io.EOF
+
+// plainModes: the file_info.mode values of the contents list the document gives this format, read with a plain YAML
+// decoding into untyped values (nil where an entry states none or something that is not an integer)
+func plainModes(yamlText, format string) []*int64 {
+	var doc map[string]any
+	if yaml.Unmarshal([]byte(yamlText), &doc) != nil {
+		return nil
+	}
+	list, _ := doc["contents"].([]any)
+	if ovs, ok := doc["overrides"].(map[string]any); ok {
+		if ov, ok := ovs[format].(map[string]any); ok {
+			if l, ok := ov["contents"].([]any); ok && len(l) > 0 {
+				list = l
+			}
+		}
+	}
+	out := make([]*int64, len(list))
+	for i, e := range list {
+		m, ok := e.(map[string]any)
+		if !ok {
+			continue
+		}
+		fi, ok := m["file_info"].(map[string]any)
+		if !ok {
+			continue
+		}
+		switch v := fi["mode"].(type) {
+		case int:
+			x := int64(v)
+			out[i] = &x
+		case int64:
+			out[i] = &v
+		case uint64:
+			x := int64(v)
+			out[i] = &x
+		}
+	}
+	return out
+}
+
+// plainList: the list at <block>.<key> as the document gives it to the format: overrides.<format>.<block>.<key> when
+// that is a non-empty list, the top-level <block>.<key> otherwise. ok is false when neither is a list of plain strings.
+func plainList(yamlText, format, block, key string) ([]string, bool) {
+	var doc map[string]any
+	if yaml.Unmarshal([]byte(yamlText), &doc) != nil {
+		return nil, false
+	}
+	get := func(m map[string]any) ([]string, bool) {
+		b, ok := m[block].(map[string]any)
+		if !ok {
+			return nil, false
+		}
+		l, ok := b[key].([]any)
+		if !ok || len(l) == 0 {
+			return nil, false
+		}
+		var out []string
+		for _, x := range l {
+			sx, ok := x.(string)
+			if !ok || strings.Contains(sx, "$") {
+				return nil, false
+			}
+			out = append(out, sx)
+		}
+		return out, true
+	}
+	if ovs, ok := doc["overrides"].(map[string]any); ok {
+		if ov, ok := ovs[format].(map[string]any); ok {
+			if l, ok := get(ov); ok {
+				return l, true
+			}
+		}
+	}
+	return get(doc)
+}
+
+// plainScript: <block>.scripts.<key> as the document gives it to the format. ok: the document could be read;
+// named: some block names a non-empty script for the slot.
+func plainScript(yamlText, format, block, key string) (v string, named, ok bool) {
+	var doc map[string]any
+	if yaml.Unmarshal([]byte(yamlText), &doc) != nil {
+		return "", false, false
+	}
+	get := func(m map[string]any) (string, bool) {
+		b, ok := m[block].(map[string]any)
+		if !ok {
+			return "", false
+		}
+		sc, ok := b["scripts"].(map[string]any)
+		if !ok {
+			return "", false
+		}
+		x, ok := sc[key].(string)
+		return x, ok && x != ""
+	}
+	if ovs, isMap := doc["overrides"].(map[string]any); isMap {
+		if ov, isMap := ovs[format].(map[string]any); isMap {
+			if x, has := get(ov); has {
+				return x, true, true
+			}
+		}
+	}
+	x, has := get(doc)
+	return x, has, true
+}
